@@ -144,6 +144,37 @@ def run_binop_hooks(rt, interp, opn, a, b):
     return MISSING
 
 
+def possible_bits(e, depth=0):
+    """bit mask of the bits that can be set in a non-negative integer term, or None (syntactic, cheap)"""
+    if depth > 12:
+        return None
+    if z3.is_int_value(e):
+        v = e.as_long()
+        return v if v >= 0 else None
+    if z3.is_app_of(e, z3.Z3_OP_ITE):
+        x, y = possible_bits(e.arg(1), depth + 1), possible_bits(e.arg(2), depth + 1)
+        return None if x is None or y is None else x | y
+    if z3.is_app_of(e, z3.Z3_OP_MUL) and e.num_args() == 2:
+        c, x = e.arg(0), e.arg(1)
+        if z3.is_int_value(x):
+            c, x = x, c
+        if z3.is_int_value(c):
+            cv = c.as_long()
+            xb = possible_bits(x, depth + 1)
+            if xb is not None and cv > 0 and cv & (cv - 1) == 0:
+                return xb * cv
+        return None
+    if z3.is_app_of(e, z3.Z3_OP_ADD):
+        acc = 0
+        for i in range(e.num_args()):
+            xb = possible_bits(e.arg(i), depth + 1)
+            if xb is None or acc & xb:
+                return None
+            acc |= xb
+        return acc
+    return None
+
+
 def binop(rt, interp, op, a, b, node=None):
     opn = type(op).__name__
     sym = isinstance(a, Sym) or isinstance(b, Sym)
@@ -197,6 +228,9 @@ def binop(rt, interp, op, a, b, node=None):
                 return b
             if isinstance(b, int) and b == 0:
                 return a
+            pa, pb = possible_bits(z3.simplify(x)), possible_bits(z3.simplify(y))
+            if pa is not None and pb is not None and pa & pb == 0:
+                return lift_int(x + y)          # disjoint bit ranges: | and ^ are +
             w = _bv_width(interp, a, b)
             if w is not None:
                 xa, xb = z3.Int2BV(x, w), z3.Int2BV(y, w)
